@@ -427,7 +427,7 @@ func (javaTarget) RunCells(e *Env, cells []*Cell) {
 	rt, err := javaRuntime(e)
 	if err != nil {
 		for _, jc := range todo {
-			jc.c.Stage, jc.c.BuildLog = "driver", err.Error()
+			jc.c.Stage, jc.c.BuildLog = "driver", "harness: java runtime cannot be built: "+err.Error()
 		}
 		return
 	}
@@ -444,7 +444,9 @@ func (javaTarget) RunCells(e *Env, cells []*Cell) {
 			e.cachePut(jc.key, encodeCached(c, nil))
 			return
 		}
-		so, se, err := javaRunCapped(jc.dir, javaRunTimeout, inputBytes(c), javaMaxStdout, "java", javaCmd(rt, jc.classes, "verif.Driver", jc.pkg)...)
+		so, se, err := runSegments(c, func(in []byte) ([]byte, []byte, error) {
+			return javaRunCapped(jc.dir, javaRunTimeout, in, javaMaxStdout, "java", javaCmd(rt, jc.classes, "verif.Driver", jc.pkg)...)
+		})
 		if err != nil && len(so) == 0 {
 			c.Stage, c.BuildLog = "run", fmt.Sprintf("%v\n%s", err, trunc(se, 4000))
 			if !strings.Contains(err.Error(), "timeout") {
